@@ -225,6 +225,12 @@ class Solver(ABC):
 
         initial_values = self._unbatch_results(padded_batched_initial_values)
 
+        # Value estimates are real-valued whatever dtype the problem's initial_value
+        # returns (e.g. a plain ``return 0``): integer estimates would truncate values
+        # written back into them (the carried values of a semi-asynchronous sweep)
+        if not jnp.issubdtype(initial_values.dtype, jnp.floating):
+            initial_values = initial_values.astype(jnp.result_type(float))
+
         return initial_values
 
     def _calculate_initial_value_state_batch(
